@@ -33,6 +33,11 @@ K_ROUTINE = "linkname:routine-name-vs-user-closure"
 K_STUB = "linkname:stub-prefix-vs-package-path"
 K_LOCAL = "linkname:local-type-wrapper-scope-dropped"
 K_IFACEPKG = "descriptor:iface-pkgpath-of-compiling-package"
+K_SF1 = "descriptor:local-type-of-generic-used-in-closure"
+K_SF2 = "wrapper:unnamed-struct-embedding-generic-instance-panics"
+K_SF3 = "linkage:promoted-wrapper-discardable-but-referenced-elsewhere"
+K_SF4 = "linkname:unexported-promoted-method-vs-own-method"
+K_SF5 = "descriptor:local-type-argument-scope-lost"
 PATCH = "github.com/goplus/llgo/runtime/internal/lib/"
 SYNTH = ("bound", "thunk", "wrapper", "local-bound", "local-thunk", "local-wrapper")
 MERGEABLE = {"linkonce", "linkonce_odr", "weak", "weak_odr", "common"}
@@ -502,6 +507,26 @@ def run(ctx, args):  # noqa: C901
             name = name.split(":")[1]
         judge_pair(op, terms, name)
 
+    # descriptor names of unnamed structs with an embedded unexported field: one type per package, so one name per package
+    sn_pk = ["m/a", "m/b", "m/ab", "main", "github.com/x/y"]
+    sn_req = ["sn %s %s" % (hx(pk), hx(kd)) for kd in ("int", "error", "alias") for pk in sn_pk]
+    sn_out, _, _ = run_lines([harness], sn_req + sn_req[:3])
+    n_eval += len(sn_out)
+    stats["constructed-sn"] = len(sn_out)
+    if len(sn_out) != len(sn_req) + 3 or not all(o.startswith("ok ") for o in sn_out):
+        mismatches.append(("sn requests", sn_out[:3], None))
+    else:
+        for kd_i, kd in enumerate(("int", "error", "alias")):
+            names = sn_out[kd_i * len(sn_pk):(kd_i + 1) * len(sn_pk)]
+            for i in range(len(sn_pk)):
+                for j in range(i + 1, len(sn_pk)):
+                    if names[i] == names[j]:
+                        what = "struct{ %s } of package %s and of package %s (two distinct types: the embedded field is unexported) share the descriptor name %r" % (
+                            kd if kd != "alias" else "al /* = int32 */", sn_pk[i], sn_pk[j], uh(names[i][3:]))
+                        spec_failures.append(what)
+                        report_capped("sn", "descriptor:unnamed-struct-shared-across-packages:" + kd, what, {"kind": kd, "packages": [sn_pk[i], sn_pk[j]], "name": uh(names[i][3:])})
+        if sn_out[:3] != sn_out[len(sn_req):]:
+            mismatches.append(("sn is not a function of (package, type)", sn_out[:3], sn_out[len(sn_req):]))
     ctx.log("constructed route: %d requests, %d mismatches" % (len(reqs), len(mismatches)))
     # ---------------------------------------------------------------- programs
     joined(tl, "llgo")
@@ -516,6 +541,10 @@ def run(ctx, args):  # noqa: C901
     trees.append(("wrapper", f3, ids3, order3, "m"))
     f4, exp4, binds4, order4 = progs.linkname_program()
     trees.append(("linkname", f4, None, order4, "m"))
+    f5, order5, exp5 = progs.side_findings_program()
+    trees.append(("side", f5, None, order5, "s"))
+    f6, exp6 = progs.unnamed_embedding_program()
+    write_module(os.path.join(ctx.scratch, "t-unnamed"), f6)
     extra = 2 if quick else 12
     for i in range(extra):      # more trees for the in-process route only
         fx, idx, ox = progs.gen_main_program(rng, npk=rng.choice([2, 3, 4]))
@@ -559,7 +588,7 @@ def run(ctx, args):  # noqa: C901
             for (cur, nm, ft) in r["cols"]:
                 if r["kind"] in ("wrapper", "local-wrapper") and cur != owner:
                     continue      # method wrappers are only ever compiled by the package that declares the receiver type
-                key = (cur, nm) if r["kind"] in SYNTH else ("*", nm)
+                key = (cur, nm) if r["kind"] in SYNTH and r["kind"] not in ("wrapper", "local-wrapper") else ("*", nm)
                 seen.setdefault(key, {})[r["term"]] = (r, cov)
         for (cur, nm), ents in sorted(seen.items(), key=lambda kv: str(kv[0])):
             ents = {t: v for t, v in ents.items() if all(ft.split(".")[0] == "1" for (_, _, ft) in v[0]["cols"])}
@@ -576,6 +605,9 @@ def run(ctx, args):  # noqa: C901
                 report_capped("covered", "linkname:collision-of-covered-entities:" + str(nm), what, {"entities": strs, "name": nm, "files": files})
             elif any(dotted_last(p) for p in paths) and not kinds & {"bound", "thunk"}:
                 ctx.report(K_DOT, what, {"entities": strs, "name": nm, "files": files})
+            elif kinds == {"method", "wrapper"} and nm.rsplit(".", 1)[-1][:1].islower():
+                # a declared unexported method and the wrapper of a promoted unexported method of ANOTHER package's type
+                ctx.report(K_SF4, what, {"entities": strs, "name": nm, "files": files})
             elif kinds <= {"bound", "thunk"}:
                 ctx.report(K_WRAP, what, {"entities": strs, "name": nm, "files": files})
             elif kinds <= {"local-bound", "local-thunk", "local-wrapper"}:
@@ -600,13 +632,92 @@ def run(ctx, args):  # noqa: C901
         return p, mods, out, ref
 
     ctx.log("in-process source route: %d trees, %d mismatches so far" % (len(trees), len(mismatches)))
+    def judge_linkage(tag, mods, genpaths, files, idinfo, known_class):
+        """(b), (c) and the discardable-definition rule on the symbol tables of one compiled program.
+        known_class(cls, symbol) -> key of a listed known finding, or None (then the report is a VIOLATION)"""
+        def rep(cls, nm, what, obj):
+            k = known_class(cls, nm)
+            if k:
+                ctx.report(k, what, obj)
+            else:
+                report_capped(cls, "linkname:%s:%s" % (cls, nm), what, obj)
+        defs, gdefs = {}, {}
+        for m in mods:
+            for nm, (lk, body) in m.defs.items():
+                defs.setdefault(nm, []).append((m, lk, body))
+            for nm, (lk, rest) in m.gdefs.items():
+                gdefs.setdefault(nm, []).append((m, lk, rest))
+        # (b) same name in several modules: mergeable everywhere, equivalent bodies
+        multi = 0
+        for nm, lst in sorted(list(defs.items()) + list(gdefs.items())):
+            if len(lst) < 2:
+                continue
+            multi += 1
+            lks = set(lk for (_, lk, _) in lst)
+            if not lks <= MERGEABLE:
+                what = "symbol %r is defined in %d modules (%s) with linkage %s" % (nm, len(lst), [m.id for (m, _, _) in lst], sorted(lks))
+                spec_failures.append(what)
+                rep("e2e-duplicate-strong", nm, what, {"symbol": nm, "files": files})
+                continue
+            bodies = set(m.normalise(b) for (m, _, b) in lst)
+            if len(bodies) > 1 and all('abi.InterfaceType" {' in x for x in bodies):
+                # descriptor of a package-less interface type (unnamed, or the universe's `error`): equal up to the PkgPath_
+                # string = the module that emitted it?
+                mods_re = "|".join(re.escape(x) for x in sorted(genpaths, key=len, reverse=True))
+                b2 = set(re.sub(r'\[\d+ x i8\] c"(%s)", align 1\}, i64 \d+' % mods_re, "<pkgpath of the emitting module>", x) for x in bodies)
+                if len(b2) == 1:
+                    what = "mergeable interface descriptor %r differs between modules %s only in its PkgPath_ field (each module writes its own path)" % (nm, [m.id for (m, _, _) in lst])
+                    spec_failures.append(what)
+                    ctx.report(K_IFACEPKG, what, {"symbol": nm, "bodies": sorted(bodies)[:2]})
+                    continue
+            if len(bodies) > 1:
+                bl = sorted(bodies)
+                what = "mergeable symbol %r has %d different bodies in modules %s" % (nm, len(bodies), [m.id for (m, _, _) in lst])
+                spec_failures.append(what)
+                rep("e2e-mergeable-differs", nm, what, {"symbol": nm, "bodies": bl[:2], "files": files})
+        stats["e2e-names-defined-in-several-modules:" + tag] = multi
+        # (c) referenced symbols of generated packages are defined, by the owner
+        alldef = set(defs) | set(gdefs)
+        refs = 0
+        for m in mods:
+            for nm in sorted(m.decls | m.gdecls):
+                owner = max((g for g in genpaths if nm.startswith(g + ".") or nm.startswith("__llgo_stub." + g + ".")), key=len, default=None)
+                if owner is None:
+                    continue          # runtime, libc, llvm intrinsics, type descriptors
+                refs += 1
+                if nm not in alldef:
+                    what = "module %s references %r, which no generated module defines" % (m.id, nm)
+                    spec_failures.append(what)
+                    rep("e2e-undefined", nm, what, {"symbol": nm, "module": m.id, "files": files})
+                    continue
+                lst = defs.get(nm) or gdefs.get(nm)
+                strong = [(dm, lk) for (dm, lk, _) in lst if lk not in MERGEABLE]
+                for (dm, lk) in strong:
+                    bid = ids_in(defs[nm][0][2]) if nm in defs else []
+                    own = idinfo[bid[0]]["pkg"] if bid and bid[0] in idinfo else owner
+                    if own is not None and dm.id != own:
+                        what = "symbol %r of package %s is defined by module %s" % (nm, own, dm.id)
+                        spec_failures.append(what)
+                        rep("e2e-wrong-owner", nm, what, {"symbol": nm, "files": files})
+        stats["e2e-cross-package-references:" + tag] = refs
+        # (d) a definition that the optimiser may discard (linkonce: "unreferenced linkonce globals may be dropped") must not
+        #     be the only definition of a symbol that ANOTHER module references
+        for m in mods:
+            for nm in sorted(m.decls | m.gdecls):
+                lst = defs.get(nm) or gdefs.get(nm)
+                if lst and all(lk in ("linkonce", "linkonce_odr") for (_, lk, _) in lst):
+                    what = "module %s references %r, whose only definitions are discardable (linkonce) ones in %s" % (m.id, nm, [dm.id for (dm, _, _) in lst])
+                    spec_failures.append(what)
+                    rep("e2e-discardable-definition", nm, what, {"symbol": nm, "module": m.id, "files": files})
+
     # --- main program
     p, mods, out, ref = compile_tree("main", order1)
     ctx.log("main program compiled: rc=%s, %d IR modules" % (p.returncode, len(mods)))
     genpaths = [o["path"] for o in order1]
     # the three small programs compile concurrently (the runtime packages are in llgo's cache now)
     ts = [spawn("dotted", lambda: compile_tree("dotted", order2)), spawn("wrapper", lambda: compile_tree("wrapper", order3)),
-          spawn("linkname", lambda: compile_tree("linkname", order4, want_ref=False))]
+          spawn("linkname", lambda: compile_tree("linkname", order4, want_ref=False)),
+          spawn("side", lambda: compile_tree("side", order5)), spawn("unnamed", lambda: compile_tree("unnamed", [], want_ref=False))]
     stats["e2e-modules"] = len(mods)
     # the symbol tables are judged whenever every package was compiled to IR - also when the LINK failed (an undefined
     # or doubly defined symbol is then reported as the concrete pair of modules / entities, not as "build failed")
@@ -651,58 +762,7 @@ def run(ctx, args):  # noqa: C901
                 what = "non-generic entity %s has %d link names: %s" % (inf, len(nms), sorted(nms))
                 spec_failures.append(what)
                 report_capped("e2e-several-names", "linkname:e2e-several-names:%s.%s" % (inf["pkg"], inf["desc"]), what, {"names": sorted(nms), "files": f1})
-        # (b) same name in several modules: mergeable everywhere, equivalent bodies
-        multi = 0
-        for nm, lst in sorted(list(defs.items()) + list(gdefs.items())):
-            if len(lst) < 2:
-                continue
-            multi += 1
-            lks = set(lk for (_, lk, _) in lst)
-            if not lks <= MERGEABLE:
-                what = "symbol %r is defined in %d modules (%s) with linkage %s" % (nm, len(lst), [m.id for (m, _, _) in lst], sorted(lks))
-                spec_failures.append(what)
-                report_capped("e2e-duplicate-strong", "linkname:e2e-duplicate-strong:" + nm, what, {"symbol": nm, "files": f1})
-                continue
-            bodies = set(m.normalise(b) for (m, _, b) in lst)
-            if len(bodies) > 1 and nm.startswith("_llgo_iface$"):
-                # descriptor of an unnamed interface type: equal up to the PkgPath_ string = the module that emitted it?
-                mods_re = "|".join(re.escape(x) for x in sorted(genpaths, key=len, reverse=True))
-                b2 = set(re.sub(r'\[\d+ x i8\] c"(%s)", align 1\}, i64 \d+' % mods_re, "<pkgpath of the emitting module>", x) for x in bodies)
-                if len(b2) == 1:
-                    what = "mergeable interface descriptor %r differs between modules %s only in its PkgPath_ field (each module writes its own path)" % (nm, [m.id for (m, _, _) in lst])
-                    spec_failures.append(what)
-                    ctx.report(K_IFACEPKG, what, {"symbol": nm, "bodies": sorted(bodies)[:2]})
-                    continue
-            if len(bodies) > 1:
-                bl = sorted(bodies)
-                what = "mergeable symbol %r has %d different bodies in modules %s" % (nm, len(bodies), [m.id for (m, _, _) in lst])
-                spec_failures.append(what)
-                report_capped("e2e-mergeable-differs", "linkname:e2e-mergeable-differs:" + nm, what, {"symbol": nm, "bodies": bl[:2], "files": f1})
-        stats["e2e-names-defined-in-several-modules"] = multi
-        # (c) referenced symbols of generated packages are defined, by the owner
-        alldef = set(defs) | set(gdefs)
-        refs = 0
-        for m in mods:
-            for nm in sorted(m.decls | m.gdecls):
-                owner = max((g for g in genpaths if nm.startswith(g + ".") or nm.startswith("__llgo_stub." + g + ".")), key=len, default=None)
-                if owner is None:
-                    continue          # runtime, libc, llvm intrinsics, type descriptors
-                refs += 1
-                if nm not in alldef:
-                    what = "module %s references %r, which no generated module defines" % (m.id, nm)
-                    spec_failures.append(what)
-                    report_capped("e2e-undefined", "linkname:e2e-undefined:" + nm, what, {"symbol": nm, "module": m.id, "files": f1})
-                    continue
-                lst = defs.get(nm) or gdefs.get(nm)
-                strong = [(dm, lk) for (dm, lk, _) in lst if lk not in MERGEABLE]
-                for (dm, lk) in strong:
-                    bid = ids_in(defs[nm][0][2]) if nm in defs else []
-                    own = ids1.info[bid[0]]["pkg"] if bid and bid[0] in ids1.info else owner
-                    if own is not None and dm.id != own:
-                        what = "symbol %r of package %s is defined by module %s" % (nm, own, dm.id)
-                        spec_failures.append(what)
-                        report_capped("e2e-wrong-owner", "linkname:e2e-wrong-owner:" + nm, what, {"symbol": nm, "files": f1})
-        stats["e2e-cross-package-references"] = refs
+        judge_linkage("main", mods, genpaths, f1, ids1.info, lambda cls, nm: None)
         # the compiled names are the names the in-process route (and hence the model) gives, entity by entity
         exp = {}
         for r in inproc["main"]:
@@ -818,6 +878,45 @@ def run(ctx, args):  # noqa: C901
             what = "linkname/export program prints %r, expected %r" % (got, exp4)
             spec_failures.append(what)
             ctx.report("linkname:directive-output", what, {"files": f4})
+
+    # --- shapes of the defects the seeding agent met on the unmodified tree (/verif/seeded/side-findings/C14): each is a
+    #     listed known finding; anything else that goes wrong in these programs is a VIOLATION
+    p, mods, out, ref = joined(ts[3], "side")
+    ctx.log("side-findings program: rc=%s" % p.returncode)
+    n_eval += len(exp5)
+    if ref is not None and [l for l in ref[1].split("\n") if l] != exp5:
+        mismatches.append(("reference toolchain on the side-findings program", ref[1], exp5))
+    if p.returncode != 0 or len(mods) != len(order5):
+        what = "side-findings program does not build: " + (p.stdout + p.stderr)[-400:]
+        spec_failures.append(what)
+        ctx.report("linkname:side-program-build", what, {"files": f5, "output": (p.stdout + p.stderr)[-2000:]})
+    else:
+        judge_linkage("side", mods, [o["path"] for o in order5], f5, {},
+                      lambda cls, nm: K_SF3 if cls == "e2e-discardable-definition" and nm in ("s/a.W.Get", "s/a.(*W).Get") else
+                      K_SF1 if cls == "e2e-mergeable-differs" and re.match(r"\*?_llgo_s/g\.W\.p\d+(\$fields)?$", nm) else None)
+        got = ([l for l in out[1].split("\n") if l] + ["?"] * 6)[:6]
+        line_key = [K_SF1, K_SF1, K_SF1, K_SF4, K_SF5, None]
+        line_what = ["a local type of a generic function used in the body and in a closure of it is two types",
+                     "a local type of a generic function used in the body and in a closure of it is two types",
+                     "a local type of a generic function used in the body and in a closure of it is two types",
+                     "type T struct{ b.U } with its own unexported m and the promoted unexported b.U.m: both are symbol s/a.T.m",
+                     "Wrap5[L] with two function-local types L of different functions share one local type W[L]", "promoted Get of struct{ g.Box[int] }"]
+        for k in range(6):
+            if got[k] != exp5[k]:
+                what = "%s: llgo prints %r, Go specifies %r" % (line_what[k], got[k], exp5[k])
+                spec_failures.append(what)
+                ctx.report(line_key[k] or "linkname:side-program-output:line-%d" % k, what, {"files": f5, "line": k, "llgo": got, "go": exp5})
+    p, mods, out, ref = joined(ts[4], "unnamed")
+    n_eval += 1
+    msg = p.stdout + p.stderr
+    if p.returncode != 0:
+        what = "struct{ g.Box[int] } converted to an interface: llgo fails to compile" + (" (panic: invalid recv type, cl/import.go recvNamed)" if "invalid recv type" in msg else ": " + msg[-300:])
+        spec_failures.append(what)
+        ctx.report(K_SF2 if "invalid recv type" in msg else "linkname:unnamed-embedding-program-build", what, {"files": f6, "output": msg[:1500]})
+    elif [l for l in out[1].split("\n") if l] != exp6:
+        what = "struct{ g.Box[int] } converted to an interface: prints %r, expected %r" % (out[1], exp6)
+        spec_failures.append(what)
+        ctx.report("linkname:unnamed-embedding-program-output", what, {"files": f6})
 
     # --- thorough: reserved-name probes
     if not quick:
